@@ -21,8 +21,7 @@ func c07Run(c *runner.Ctx) {
 		w, err = gen.GenWorld(r, c.TmpDir, fmt.Sprintf("w%d", c.Idx), gen.WorldOpts{})
 		c.Inc("worlds.random", 1)
 	}
-	if err != nil {
-		c.Note(fmt.Sprintf("case %d: world construction failed (C01/C02/C04's business): %s", c.Idx, firstLine(err.Error())))
+	if w = usable(c, w, err); w == nil {
 		return
 	}
 	defer w.Close()
